@@ -139,7 +139,11 @@ def values(spec: typing.Any, out_of_range: bool = False, omit: bool = False) -> 
         if out_of_range:
             return st.one_of(_float_bits(w), _float_bits(64), st.integers(-(1 << 53), 1 << 53), st.sampled_from([1 << 1100, -(1 << 1100), 10**400]))
         # in range: values the narrow format represents exactly (round trip must be the identity), plus specials
-        exact = st.integers(0, (1 << w) - 1).map(lambda p: codec.ieee_decode(p, w))
+        e_bits, m_bits = codec.FLOAT_FORMATS[w]
+        top = ((1 << e_bits) - 1) << m_bits
+        special_patterns = [0, 1 << (w - 1), top, top | (1 << (w - 1)), top | (1 << (m_bits - 1)), 1, (1 << m_bits) - 1, 1 << m_bits, top - 1]
+        exact = st.one_of(st.integers(0, (1 << w) - 1), st.sampled_from(special_patterns)).map(lambda p: (p, codec.ieee_decode(p, w)))
+        exact = exact.map(lambda t: -0.0 if (t[1] == 0 and t[0] >> (w - 1)) else t[1])
         return exact.map(
             lambda d: {"f": codec.f64_to_bits(float("nan") if d == "nan" else float("inf") if d == "+inf" else float("-inf") if d == "-inf" else float(d))}
         )
